@@ -57,7 +57,7 @@ TypeMenu == { [size |-> 0, align |-> 1], [size |-> 0, align |-> 2], [size |-> 0,
               [size |-> 6, align |-> 2], [size |-> 4, align |-> 4], [size |-> 12, align |-> 4],
               [size |-> 8, align |-> 8], [size |-> 16, align |-> 8], [size |-> 24, align |-> 8],
               [size |-> 40, align |-> 8], [size |-> 16, align |-> 16], [size |-> 32, align |-> 16],
-              [size |-> 64, align |-> 16] }
+              [size |-> 64, align |-> 16], [size |-> 64, align |-> 64] }
 
 \* ---- layout: data offset of an arena (sync and unsync headers are both 24 bytes, align 8) ----
 HeaderSize == 24
